@@ -224,9 +224,10 @@ theorem ttl_255_panics (ms : Nat) :
       = .panic := by
   have hbig : ∀ (fs : FlowState F) f, fs.hops.length = 254 → fs.modifyHop 255 f = .panic :=
     fun fs f h => modifyHop_big fs 255 f (by omega)
-  simp only [FlowState.applyRound, Updater.loop, Updater.updateForProbe, pr, R.bind_ok, bind, R.bind]
+  simp only [FlowState.applyRound, Updater.loop, Updater.updateForProbe, pr, bind, R.bind]
   rw [hbig _ _ (by simp [new_len])]
 
+omit [Num F] in
 /-- a path length below the lowest probed ttl makes `hops()` panic (slice `[lowest-1 .. highest]`),
 and so does a path length of 255 (slice end beyond the 254 hops) -/
 theorem bad_window_panics (fs : FlowState F) (hlen : fs.hops.length = 254) :
